@@ -83,7 +83,14 @@ pub fn decode(tape: &[u16]) -> Case {
         }
         1 => {
             let n = t.range(1, 3);
-            let strings = (0..n).map(|_| (t.pick(INSERT_STRS).to_string(), if t.chance(1, 2) { CT::Text } else { CT::Html })).collect();
+            let strings = (0..n)
+                .map(|_| {
+                    let base = t.pick(INSERT_STRS).to_string();
+                    // occasionally long content: crosses the text encoder's stack and heap buffer sizes
+                    let rep = *t.pick(&[1usize, 1, 1, 1, 20, 70, 400, 1500]);
+                    (base.repeat(rep), if t.chance(1, 2) { CT::Text } else { CT::Html })
+                })
+                .collect();
             let input = input_in(&mut t, &InputOpts { max_frags: 8, safe_only: true, ..Default::default() }, enc);
             let cuts = spec.resolve(input.len());
             Case::Insert { enc, input, cuts, strings }
@@ -355,7 +362,7 @@ impl Prop for C13 {
     }
     fn plan(&self, tier: Tier) -> Plan {
         match tier {
-            Tier::Quick => Plan { cases: 400_000, tape_len: 200 },
+            Tier::Quick => Plan { cases: 1_000_000, tape_len: 200 },
             Tier::Thorough => Plan { cases: 12_000_000, tape_len: 260 },
         }
     }
